@@ -250,3 +250,24 @@ prop(
     assumptions=["no access list in force during the histories (C20's quantifier)", "a crash is a process abort; power loss / fsync ordering is outside the model"],
 )
 
+prop(
+    "C12",
+    module="Aquatic.Props.C12",
+    extra_modules=["Aquatic.Props.C06", "Aquatic.Props.C02", "Aquatic.Props.WsStore", "Aquatic.Props.Store"],
+    technique="Lean 4 proof (parser models are total with error values and accept only what the input bounds; the three store models never reach a panic outcome on any history and any field values; the JSON nesting guard bounds the nesting of everything it accepts) + raw-bytes differential runs of every real parser under catch_unwind, in child processes on worker-sized stacks, with measured allocation",
+    runs=[dict(harness="rawbytes", driver="rawbytes", quick=dict(cases=1500), thorough=dict(cases=60000)),
+          dict(harness="udpcodec", driver="codec13", quick=dict(cases=150), thorough=dict(cases=6000)),
+          dict(harness="httpcodec", driver="httpcodec", quick=dict(cases=150), thorough=dict(cases=6000)),
+          dict(harness="wsjson", driver="wsjson", quick=dict(cases=150), thorough=dict(cases=6000)),
+          dict(harness="udpstore", driver="store", quick=dict(cases=100, maxops=60), thorough=dict(cases=4000, maxops=160)),
+          dict(harness="httpstore", driver="store", quick=dict(cases=100, maxops=60), thorough=dict(cases=4000, maxops=160)),
+          dict(harness="wsstore", driver="wsstore", quick=dict(cases=100, maxops=60), thorough=dict(cases=4000, maxops=140))],
+    nontrivial=["udpreq-err", "wsin-err", "wsout-err", "httpreq-err", "httpresp-err", "udpresp-err", "aclline-err", "deep-json", "len>=2048",
+                "hp-rejected", "halves-branch", "answer-refused"],
+    level_text="Theorems: every datagram the UDP request parser model accepts is at least as long as what is decoded from it (connect 16 bytes, scrape 16 + 20 n with n <= max_scrape_torrents), everything else is an error value and an unparseable datagram gets no reply and touches no state; numwant of any sign and size is clamped within the configured limit before any arithmetic; the UDP, HTTP and WebTorrent store models reach no panic outcome (no usize underflow, no out-of-range selection) on any history with any field values (no-panic half of the three refinement theorems); every text the JSON nesting guard accepts has bracket depth <= 32 at every prefix, and a text opening more brackets is refused. Tie: raw bytes (valid messages, truncation at every offset, extension, bit flips, separators and quotes in odd places, non-UTF-8, deep nesting, field extremes, noise up to the receive-buffer sizes) at Request/Response::parse_bytes (UDP), parse_request and Response::parse_bytes (HTTP), InMessage/OutMessage::from_ws_message, PeerId::client, AccessList::insert_from_line - each call under catch_unwind in a child process on a 2 MiB-stack thread, allocation counted; plus the malformed streams of the codec families and the store families with extreme field values.",
+    level_note="partial: absence of panics / aborts in the real parsers (httparse, simd-json, serde, zerocopy) is established by the runs, not by proof; the parser models are total by construction. Allocation bound checked: 256 x (input + 64) + 128 KiB, measured by a counting global allocator.",
+    design_ref="§8 C12",
+    assumptions=["HTTP client-library replies are bounded by the load tester's 2048-byte receive buffer (serde_bencode recursion is unbounded beyond that)",
+                 "worker threads have the default 2 MiB stack of std threads"],
+)
+
